@@ -373,7 +373,12 @@ pub fn scenarios(rng: &mut StdRng, quick: bool) -> Vec<Scenario> {
         ("write_between_inserts", 2),
         ("write_after_mem", 1),
     ];
-    for script in ["readers", "queue_and_readers", "queue_big_follower"] {
+    for script in [
+        "readers",
+        "queue_and_readers",
+        "queue_big_follower",
+        "compact_while_parked",
+    ] {
         for (p, nth) in &writer_points {
             let victims = vec![
                 Victim::Put { k: 2 },
@@ -1145,6 +1150,34 @@ pub fn run_scenario(sc: &Scenario, seed: u64, run_no: u64) -> SchedOutcome {
                     });
                     ctl.wait_waiting(name, Duration::from_secs(3));
                     helpers.push((name.to_string(), rx));
+                }
+            }
+            "compact_while_parked" => {
+                // compact_range (which first forces a memtable flush) requested while the writer
+                // is inside its unlocked section: the forced rotation has to wait for its turn
+                // behind the writer - the memtable the writer is filling must not be rotated and
+                // flushed under its feet
+                let d3 = Arc::clone(&db);
+                let rx = spawn_named("m1", move || d3.compact_range(None..None));
+                ctl.wait_waiting("m1", Duration::from_secs(3));
+                let t0 = Instant::now();
+                while t0.elapsed() < Duration::from_millis(400) {
+                    match db.verif_try_state(Duration::from_secs(1)) {
+                        Some(d) if !d.has_imm && !d.bg_scheduled => break,
+                        _ => std::thread::sleep(Duration::from_millis(5)),
+                    }
+                }
+                helpers.push(("m1".to_string(), rx));
+                let e3 = Arc::clone(&env);
+                let rx = spawn_named("r1", move || {
+                    for k in 1..=6 {
+                        e3.get(k);
+                    }
+                    e3.scan(true, false);
+                });
+                if rx.recv_timeout(Duration::from_secs(60)).is_err() {
+                    hang("reader while writer suspended", &sink);
+                    status = "hang".into();
                 }
             }
             "readers" | "queue_and_readers" => {
